@@ -111,13 +111,29 @@ Definition icpt_cands (ext : list (list Q)) (best worst fw : list Q) : list (icp
   | None => []
   end.
 
+(* on an exactly singular system whose binary64 elimination is inexact, LAPACK may not notice the
+   singularity and return SOME solution of the (consistent) system; if it passes the guards the code
+   returns its reciprocals (observed: extreme points (5,1,3), (1,4,3), (1,4,3) -> intercepts
+   15.83, 11.875, 5).  Such an observation is accepted as what it is: guard-passing intercepts of a
+   hyperplane through the extreme points. *)
+Definition obs_solves (ext : list (list Q)) (best worst obs : list Q) : bool :=
+  Nat.eqb (length obs) (length best)
+  && forallb (fun row => q_leb (Qabs (vdot row (map Qinv obs) - 1)) (1 # 1000000)) (icpt_matrix ext best)
+  && negb (existsb (fun v => q_leb v icpt_min) obs)
+  && negb (existsb (fun p => q_ltb (snd p + (1 # 1000000000) * (Qabs (snd p) + Qabs (fst p))) (fst p))
+                   (zip (map2 Qplus obs best) worst)).
+
 Definition icpt_pick (robust : bool) (tol : Q) (obs : list Q) : icpt_fun :=
   fun ext best worst fw =>
     let m := find_intercepts_b ext best worst fw in
     if robust || vec_close tol (snd m) obs then m
     else match find (fun c => vec_close tol (snd c) obs) (icpt_cands ext best worst fw) with
          | Some c => c
-         | None => m
+         | None =>
+             match fst m with
+             | BSingular => if obs_solves ext best worst obs then (BMain, obs) else m
+             | _ => m
+             end
          end.
 
 Definition mkpop (ws : list (list Z)) : list ind := combine (seq 0 (length ws)) ws.
